@@ -2,7 +2,7 @@
 # Re-evaluate every seeded change (from /tmp/seed_out if present, else /verif/seeded) in N parallel streams.
 N=${1:-3}
 mkdir -p /tmp/seed_eval
-ls -d /tmp/seed_out/[CPQRTUVWXYZ]* 2>/dev/null | xargs -n1 basename | sort > /tmp/seed_eval/all.txt
+ls -d /tmp/seed_out/[COPQRTUVWXYZ]* 2>/dev/null | xargs -n1 basename | sort > /tmp/seed_eval/all.txt
 i=0
 rm -f /tmp/seed_eval/stream_*.txt
 while read s; do echo $s >> /tmp/seed_eval/stream_$((i % N)).txt; i=$((i+1)); done < /tmp/seed_eval/all.txt
